@@ -679,7 +679,7 @@ fn main() {
     }
 
     // 3. random volume
-    let n = check.tier.pick(100_000u32, 600_000);
+    let n = check.tier.pick(60_000u32, 600_000);
     let max_dim = check.tier.pick(160u32, 512);
     pt::run(
         &check,
